@@ -18,13 +18,22 @@ Theorem C06_condition_build_sound :
 Proof. exact condition_build_sound. Qed.
 Print Assumptions C06_condition_build_sound.
 
-(* for every history of cond_where / and_where (cond_having, ...) calls, starting from any holder:
+(* for every history of cond_where / and_where (cond_having, ...) calls, starting from any holder on which these
+   calls do not panic (empty, or filled by such calls; not one filled by the doc-hidden and_or_where):
    the holder denotes the AND of everything added *)
 Theorem C06_holder_is_conjunction :
-  forall (rho : expr query -> tv) (cs : list (cond query)) (h0 : holder query),
+  forall (rho : expr query -> tv) (cs : list (cond query)) (h0 : holder query), no_chain h0 ->
   sem_holder rho (fold_left holder_add cs h0) = and3 (sem_holder rho h0) (big_and (map (sem_cond rho) cs)).
 Proof. exact holder_is_conjunction. Qed.
 Print Assumptions C06_holder_is_conjunction.
+
+(* the doc-hidden and_or_where(LogicalChainOper::And(e)): every history of such calls denotes the AND of the
+   members (the meaning of a chain, Spec/Logic3.v sem_chain, is SQL's reading of the flat text it is written as) *)
+Theorem C06_and_chain_is_conjunction :
+  forall (rho : expr query -> tv) (es : list (expr query)),
+  sem_holder rho (fold_left (fun h e => holder_add_chain h false e) es HEmpty) = big_and (map (eval3 rho) es).
+Proof. exact and_chain_is_conjunction. Qed.
+Print Assumptions C06_and_chain_is_conjunction.
 
 (* a statement that was given no condition has no predicate at all, and only then *)
 Theorem C06_no_condition_no_predicate :
